@@ -45,6 +45,15 @@ def run(ctx, prop="C08"):
         relines = [pipeline.make_lines(rng, rng.choice([0, 5, 120, 900])) for _ in range(nrel)]
         rescheds = [pipeline.make_schedule(rng, rl, slow) for rl in relines]
         steps = pipeline.make_steps(rng, rng.randint(6, 30), rng.choice([0.3, 1, 2]), reloads=nrel, excludes=rng.random() < 0.5)
+        if not race and sid % 3 == 1:       # directed scenarios: result-cache key collisions / exclude-reload-same-query
+            kind = "cachekeys" if sid % 2 == 1 else "exclude-reload"
+            n = rng.choice([150, 330, 1200])
+            lines = pipeline.make_lines(rng, n, sparse=True)
+            sched = pipeline.make_schedule(rng, lines, 0.2)
+            nrel = 1 if kind == "exclude-reload" else 0
+            relines = [pipeline.make_lines(rng, rng.choice([n, n, 200]), sparse=True) for _ in range(nrel)]
+            rescheds = [pipeline.make_schedule(rng, rl, 0.2) for rl in relines]
+            steps = pipeline.scenario_steps(rng, kind, nrel)
         jobs.append((sid, lines, sched, steps, relines, rescheds))
     if ctx.replay:
         rp = json.load(open(ctx.replay))["case"]
